@@ -2,6 +2,7 @@ package padding
 
 import (
 	"crypto/cipher"
+	"errors"
 	"io"
 )
 
@@ -14,12 +15,16 @@ func P7BlockDecrypt(decrypter cipher.BlockMode, in io.Reader, out io.Writer) err
 	bufOut := make([]byte, 1024)
 	p7Out := NewPKCS7PaddingWriter(out, decrypter.BlockSize())
 	for {
-		n, err := in.Read(bufIn)
-		if err != nil && err != io.EOF {
+		// io.Reader 允许短读: 读满缓冲区(分组长度的整数倍)或者读到流结束
+		n, err := io.ReadFull(in, bufIn)
+		if err != nil && err != io.EOF && err != io.ErrUnexpectedEOF {
 			return err
 		}
 		if n == 0 {
 			break
+		}
+		if n%decrypter.BlockSize() != 0 {
+			return errors.New("密文长度不是分组长度的整数倍")
 		}
 		decrypter.CryptBlocks(bufOut, bufIn[:n])
 		_, err = p7Out.Write(bufOut[:n])
@@ -39,12 +44,16 @@ func P7BlockEnc(encrypter cipher.BlockMode, in io.Reader, out io.Writer) error {
 	bufOut := make([]byte, 1024)
 	p7In := NewPKCS7PaddingReader(in, encrypter.BlockSize())
 	for {
-		n, err := p7In.Read(bufIn)
-		if err != nil && err != io.EOF {
+		// io.Reader 允许短读: 读满缓冲区(分组长度的整数倍)或者读到流结束
+		n, err := io.ReadFull(p7In, bufIn)
+		if err != nil && err != io.EOF && err != io.ErrUnexpectedEOF {
 			return err
 		}
 		if n == 0 {
 			break
+		}
+		if n%encrypter.BlockSize() != 0 {
+			return errors.New("填充后的长度不是分组长度的整数倍")
 		}
 		encrypter.CryptBlocks(bufOut, bufIn[:n])
 		_, err = out.Write(bufOut[:n])
